@@ -15,7 +15,7 @@ import random
 
 from .. import cfgadapter, codec, common, replay, tlc, tracecheck
 
-ALL_INV = ["C01_AllValid", "C12_Fresh"]
+ALL_INV = ["C01_AllValid", "C12_Fresh", "C15_Error"]
 ALL_PROP = ["C01_Readback", "C06_Unchanged", "C12_Marks", "C12_Reset", "C13_Isolated"]
 
 BASE_CFG = """CONSTANTS
@@ -67,8 +67,23 @@ def schema_descriptor(module, schema_name):
     return res.printed["CASE"][0]
 
 
+def render_path(path):
+    """Specification error path -> the dotted reference path the library prints."""
+    out = ""
+    for seg in codec.seq(path):
+        if isinstance(seg, str):
+            out = out + "." + seg if out else seg
+        elif seg[0] == "#":
+            out += "[%d]" % (seg[1] - 1)
+        else:
+            out += "[%s]" % (codec.to_py(codec.norm(seg[1])),)
+    return out
+
+
 def normalise_graph_states(edges, inits):
     for e in edges:
+        if "errpath" in e["ev"]:
+            e["ev"]["errpath"] = render_path(e["ev"]["errpath"])
         e["from"] = cfgadapter.canon_state(e["from"])
         e["to"] = cfgadapter.canon_state(e["to"])
         ev = e["ev"]
@@ -79,7 +94,7 @@ def normalise_graph_states(edges, inits):
     return edges, [cfgadapter.canon_state(s) for s in inits]
 
 
-def run_machine(prop, invs, props, tier, seed, schema="SchemaA", signature_prefix=""):
+def run_machine(prop, invs, props, tier, seed, schema="SchemaA", signature_prefix="", focus=None):
     cinco = common.import_repo()
     out = common.Outcome(prop)
     d = tlc.scratch("cinco-cfgm-")
@@ -98,6 +113,7 @@ def run_machine(prop, invs, props, tier, seed, schema="SchemaA", signature_prefi
         )
     desc = schema_descriptor("MC_Config", schema)
     adapter = cfgadapter.Adapter(cinco, desc)
+    adapter.focus = focus
     # 2a. complete graph of the first level(s)
     cfgx = os.path.join(d, "export.cfg")
     write_cfg(cfgx, schema, 1 if tier == "quick" else 2, export=True)
